@@ -206,4 +206,17 @@ PROPS = {
                         "verdicts about missing rows are only taken when the service is at rest (goroutine states); otherwise the case is counted as inconclusive",
                         "failing DDL events and unknown collections are covered at reader / writer level (C01, C08), not here"],
     },
+    "C05": {
+        "pkg": "hserver", "test": "TestC05", "level": "exploration",
+        "quick": T(16, 5, timeout=1500), "thorough": T(16, 150, timeout=14000),
+        "rule": "full in-process service (real MetaCDC, reader, batcher, writer, SDK, meta store on a real etcd; fake MQ under the real msgstream / dispatcher; fake downstream that remembers what it accepted): collections ca (2 shards) and cb (1 shard) share source and target channels, one task for both or one each, batch size 1..4; "
+                "a generated script of 4..14 steps mixes row production on drawn streams (drawn tick cadence) with faults: downstream rejects the next data write, store rejects the next checkpoint write, pause/resume of a drawn task, and crashes - the incarnation is killed (store and streams fenced) inside the next data write before it takes effect, "
+                "right after it took effect (acknowledged but not checkpointed) or right after the next checkpoint write - each followed later by a restart (ReloadTask from the persisted state). "
+                "Monitor (a): at every checkpoint write, seen in the store decorator before it is applied, every counted row of that collection and channel with message index <= the checkpoint's index has already been accepted downstream. "
+                "Oracle (b): with all faults cleared, tasks resumed and the last incarnation at rest, every row produced since the streams were flowing has been accepted at least once. "
+                "non-trivial = at least one crash, fault or pause happened and rows were produced; distinct = distinct (batch size, task layout, script)",
+        "assumptions": ["crash = death of the incarnation simulated in-process (its store and MQ consumers are fenced, process-wide singletons reset through verif hooks); crash points are the externally visible steps named above",
+                        "rows produced before a stream without checkpoint was opened (opened at the latest position) are not counted",
+                        "frozen checkpoints of dropped collections are covered by the store-level check C12 (dropped entries never change), not here"],
+    },
 }
